@@ -331,10 +331,12 @@ func mixCase(hseed uint64) {
 		cancelFetch  bool // the caller's context is cancelled while its token request is in flight
 		cancel       context.CancelFunc
 	}
-	type jobKey struct{}
 	jobs := make([]job, n)
+	w.perJobFetch = map[int]int{}
+	w.noRedirect = true
 	w.fetchHook = func(req *http.Request) error {
-		if jb, ok := req.Context().Value(jobKey{}).(*job); ok && jb.cancelFetch {
+		if i, ok := req.Context().Value(jobKey{}).(int); ok && jobs[i].cancelFetch {
+			jb := &jobs[i]
 			time.Sleep(300 * time.Microsecond)
 			jb.cancel()
 			return req.Context().Err()
@@ -361,7 +363,7 @@ func mixCase(hseed uint64) {
 			ctx, cancel := context.WithCancel(context.Background())
 			defer cancel()
 			jb.cancel = cancel
-			ctx = context.WithValue(ctx, jobKey{}, jb)
+			ctx = context.WithValue(ctx, jobKey{}, i)
 			if len(jb.hints) > 0 {
 				ctx = auth.WithScopesForHost(ctx, jb.g.host, clone(jb.hints)...)
 			}
@@ -397,6 +399,9 @@ func mixCase(hseed uint64) {
 		run.OracleFail(id, "budget", fmt.Sprintf("concurrent mix %d: %d token fetches for %d requests", hseed, total, n), rep)
 	}
 	for i, jb := range jobs {
+		if c := w.perJobFetch[i]; c > 1 {
+			run.OracleFail(id, "budget", fmt.Sprintf("concurrent mix %d: request %d fetched a token %d times", hseed, i, c), rep)
+		}
 		if c := w.perReq[fmt.Sprintf("%d", i)]; c > 3 {
 			run.OracleFail(id, "budget", fmt.Sprintf("concurrent mix %d: request %d was sent %d times to the registry", hseed, i, c), rep)
 		}
